@@ -149,9 +149,9 @@ class Campaign:
             nconf = 0      # results of previous jobs are not part of the algorithm model
         if nconf:
             # the algorithm model covers the default reuse scope (whole run)
-            full = {"own", "swarm", "cluster", "shared"}
+            # (scopes containing own and shared: the model's scan answers from the own and the shared pool)
             sample = [g for g in good if g["outcome"] == "done"
-                      and set(str(dict(inst.params, **g["job"].get("run_params", {})).get("pool_scope", "own swarm cluster shared")).split()) == full]
+                      and {"own", "shared"} <= set(str(dict(inst.params, **g["job"].get("run_params", {})).get("pool_scope", "own swarm cluster shared")).split())]
             self.rng.shuffle(sample)
             sample = sample[:nconf]
             ver = A.validate_traces(os.path.join(self.work, "conf_" + tag), inst, sample)
@@ -182,7 +182,7 @@ class Campaign:
                         raise C.MachineryError("binding self-test: corrupted trace (%s) was accepted" % c[1])
         return good, traces, fails
 
-    def explore(self, inst_name, pools_kind="shared", maxbounce=1, invariants=None, maxtries=1, max_present=None, timeout=3000, expect_violation=False, statuses=("PASS", "FAIL"), ownunexplored=None, live=False):
+    def explore(self, inst_name, pools_kind="shared", maxbounce=1, invariants=None, maxtries=1, max_present=None, timeout=3000, expect_violation=False, statuses=("PASS", "FAIL"), ownunexplored=None, live=False, poolscope=("own", "swarm", "cluster", "shared")):
         """exhaustive exploration of the algorithm model on an instance parsed by the current tree"""
         inst = make_instance(inst_name).prepare()
         mc = A.model_constants(inst)
@@ -196,10 +196,10 @@ class Campaign:
             pools = [dict(p, shared=set(p.get("shared", set())) | inst_states) for p in A.shared_pools({"states": [s for s in mc["states"] if s not in inst_states]}, max_present)]
         else:
             pools = A.residue_pools(mc, 1)
-        r, _ = A.explore(os.path.join(self.work, "explore_" + inst_name + "_" + pools_kind + ("_oldguard" if ownunexplored is False else "") + ("_live" if live else "")), inst, "MC_explore", pools, maxbounce=maxbounce,
-                         maxtries=maxtries, invariants=invariants or A.SAFETY, timeout=timeout, statuses=statuses, ownunexplored=ownunexplored, live=live)
+        r, _ = A.explore(os.path.join(self.work, "explore_" + inst_name + "_" + pools_kind + ("_oldguard" if ownunexplored is False else "") + ("_live" if live else "") + ("" if len(poolscope) == 4 else "_" + "".join(x[0] for x in poolscope))), inst, "MC_explore", pools, maxbounce=maxbounce,
+                         maxtries=maxtries, invariants=invariants or A.SAFETY, timeout=timeout, statuses=statuses, ownunexplored=ownunexplored, live=live, poolscope=poolscope)
         rec = {"instance": inst_name, "workers": inst.nets, "lazy": inst.lazy, "test_classes": len(mc["tests"]), "initial_pools": len(pools),
-               "pools": pools_kind, "max_backoffs_per_worker": maxbounce, "max_tries": maxtries, "statuses": list(statuses),
+               "pools": pools_kind, "pool_scope": " ".join(poolscope), "max_backoffs_per_worker": maxbounce, "max_tries": maxtries, "statuses": list(statuses),
                "cleanup_guard": "as coded" if ownunexplored is None else ("own unexplored tests too" if ownunexplored else "globally unexplored tests only (before fix ce5db6a)"),
                "invariants": list(invariants or A.SAFETY) + (["NoSpin (temporal, under WF(Next))"] if live else []), "ok": bool(r.ok), "violated": r.violated, "distinct_states": r.distinct,
                "states_generated": r.generated, "wall_s": round(r.wall, 1), "timeout": "TIMEOUT" in r.out}
@@ -321,6 +321,8 @@ def explore_plan(tier, inv, retries=False, removable=False, residue=False, lost=
     quick = tier == "quick"
     plan = [dict(inst_name="tut1x2", pools_kind="shared", maxbounce=2, invariants=STRUCT + inv),
             dict(inst_name="tut1x2e", pools_kind="shared", maxbounce=1, invariants=STRUCT + inv)]
+    # narrowed reuse scope: lxc workers without the swarm scope each run their own setup
+    plan.append(dict(inst_name="tut1x2", pools_kind="shared", maxbounce=1, invariants=STRUCT + inv, poolscope=("own", "shared")))
     if retries:
         plan.append(dict(inst_name="tut1x2", pools_kind="installed", maxbounce=1, maxtries=2, invariants=STRUCT + inv))
     if lost:
@@ -335,7 +337,8 @@ def explore_plan(tier, inv, retries=False, removable=False, residue=False, lost=
         # vacuity/fidelity guard: the design before fix ce5db6a must violate the invariant in the model
         plan.append(dict(inst_name="guigetx2", pools_kind="installed", maxbounce=0, invariants=inv, statuses=("PASS",), max_present=0, ownunexplored=False, expect_violation=True))
     if not quick:
-        plan += [dict(inst_name="tut13x2", pools_kind="shared", maxbounce=0, max_present=1, invariants=STRUCT + inv, timeout=5000),
+        plan += [dict(inst_name="tut1c", pools_kind="shared", maxbounce=1, max_present=1, invariants=STRUCT + inv, poolscope=("own", "swarm", "shared")),   # remote: per swarm
+                 dict(inst_name="tut13x2", pools_kind="shared", maxbounce=0, max_present=1, invariants=STRUCT + inv, timeout=5000),
                  dict(inst_name="tut1x1", pools_kind="shared", maxbounce=1, invariants=STRUCT + inv),
                  dict(inst_name="guix2", pools_kind="empty", maxbounce=0, invariants=STRUCT + inv, timeout=5000)]
         if retries:
